@@ -46,7 +46,7 @@ def check_one(name, mod, x, opts, cls, viols):
 
 
 def inputs_for(name, mod, tier, rng):
-    nums = C.corpus(name, limit=5 if tier == 'quick' else 30, rng=rng)
+    nums = C.rich_corpus(name, 5 if tier == 'quick' else 30, rng)
     for v in nums:
         for cls, x in gen.decorations(v, name, tier, rng):
             yield cls, x
